@@ -6,6 +6,14 @@ hooks_commits = subprocess.run(["git","-C","/repo","log","--format=%h %s"],captu
 hook_commits = [l.split()[0] for l in hooks_commits if l.split(" ",1)[1].startswith("verif:")]
 
 CHECKS = {
+ "C11": dict(engine="E2 e2e", category="model_checking", technique="explicit-state exploration of command histories ending in drop / detach / restart at every kind of stop",
+   text="Histories over breakpoints, start/continue, restart, a hardware watchpoint, and the terminals drop and detach taken from every state (not started, at a breakpoint, after restart, exited) up to depth 6 (quick) / 8: after drop no /proc/<pid> entry remains; after detach the process is not stopped, an independent PTRACE_SEIZE finds text = ELF and no enabled debug-register slot, and the released process runs to the native output and exit code; after restart breakpoints hit again at the reference positions and keep their numbers; the reported exit code is the native one.",
+   note="Launched programs only: attach to an external process, quit through the console, multi-threaded programs and death by signal are not covered yet. The program sleeps 60 ms so that the released process can be inspected.",
+   design="3/C11"),
+ "C15": dict(engine="E2 e2e (in-worker sweep)", category="exploration", technique="bounded-exhaustive sweep of (address, length) windows, word writes, register values and breakpoint placements against /proc/pid/mem and PTRACE_GETREGS",
+   text="At two stops per program every read window (17 start offsets around a word boundary x lengths 0..17, and every (start, length) inside the last 16 bytes before each unmapped hole) is compared with /proc/pid/mem; word writes at all 8 alignments x 3 values must change exactly 8 bytes; 15 registers x 4 values are written, read back and confirmed by an independent PTRACE_GETREGS with no other register moving; with a breakpoint on every instruction the disassembly must equal the unpatched one; afterwards the program must still finish natively.",
+   note="DAP writeMemory / setVariable / setExpression are not covered yet (library API only).",
+   design="3/C15"),
  "C10": dict(engine="E2 e2e", category="model_checking", technique="explicit-state exploration of command histories over self-signalling programs; oracle = reference trace with recorded signal deliveries + handler counters",
    text="Programs raise SIGUSR1/SIGUSR2 (non-quiet) and SIGALRM (quiet) on themselves, one of them with two signals blocked, raised and unblocked together; every history of breakpoints + start/continue/stepi/step/next/finish up to depth 5 (quick) / 7 is executed: each non-quiet signal must be reported exactly once as a signal stop for the receiving thread in the state just before its handler (or cut a step short and say so), quiet ones never, and the handler counters printed at exit must equal the native run whatever mix of continue and step commands was used (delivered exactly once).",
    note="Real kernel, deterministic self-signalling only: externally timed signals, multi-threaded targets and SIGINT (transparent: the native run differs by design) are not covered; the simulated-kernel engine E1 of the design is not built.",
@@ -38,9 +46,9 @@ CHECKS = {
    text="(schedules) All interleavings, up to the stated preemption bound, of the real DebugSession::run thread and the two real output-forwarder threads are executed; every wire log is checked for seq = 1,2,3.. in wire order, exactly one matching response per request, every output line exactly once. (histories) Explicit-state search over DAP request histories: 34 request symbols (valid, missing and ill-typed arguments, out of order, repeated, cancel-ahead) are executed from every distinct canonical state of the real adapter with a real debuggee, up to 4 (quick) / 6 state-changing steps; every message is checked by the protocol monitor M1-M11 (one response per request, contiguous seq, resume outcomes, thread/exit/terminated ordering, nothing after terminated, connection stays up).",
    note="Trusted: schedule points bracket every sequence-number allocation and every transport lock; the transport mutex state is read with try_lock (ground truth). Requests that leave the canonical state unchanged are chained inside one session. Envelope-level garbage belongs to C08. Three genuine defects are recorded as known findings.",
    design="2/E3, 3/C12, App.B"),
- "C14": dict(engine="E4 pure", category="model_checking", technique="explicit-state BFS over the full reachable DR7 state space of the real register-encoding code",
+ "C14": dict(engine="E4 pure + E2 e2e", category="model_checking", technique="explicit-state BFS over the full reachable DR7 state space of the real register-encoding code",
    text="All 1.68M DR7 images reachable from 0 under the 48 configure/enable operations are visited; in every state the image equals an independently written Intel-SDM encoder applied to a reference slot table, and dr_enabled agrees.",
-   note="Only the DR7 encoding part so far; bits 8/9 (LE/GE) are not constrained because the property does not mention them.",
+   note="Bits 8/9 (LE/GE) are not constrained because the property does not mention them. Second part: real debug registers of every thread read by the harness after every command of an explored history over 7 watchpoint candidates (sizes 1/2/4/8, w/rw, same-address pair, one address that is 4- but not 8-byte aligned), add / remove by number or address / continue / restart, depth 8 (quick) / 10. Hardware never delivers data breakpoints in this VM, so 'every write stops once and reports old/new value', scope-end removal of local watchpoints and inheritance by new threads are NOT decided.",
    design="3/C14(a)"),
  "C17": dict(engine="E4 pure", category="model_checking", technique="explicit-state search over insert histories of the real path-suffix index with a Vec reference model",
    text="Every ordered insert sequence up to depth 2 (3 thorough) and every multiset up to depth 3 (4) over 39 '::' paths / 51 '/' paths (incl. rooted) on the real PathSearchIndex; every query of length 1-4 plus near-misses is compared with 'matches iff query components are a suffix'.",
@@ -78,7 +86,7 @@ m = {
  },
  "engines": [
    {"name":"E3 sched","path":"/verif/harness/src/sched.rs","serves_properties":["C12"],"kind_free_text":"hand-rolled CHESS: real threads parked at feature-gated schedule points, preemption-bounded DFS, worker subprocess per subtree"},
-   {"name":"E2 e2e","path":"/verif/harness/src/{e2x,e2w,isession,reftrace,dwarfref,corpus,c01}.rs","serves_properties":["C01","C02","C03","C05","C10"],"kind_free_text":"explicit-state exploration of command histories: one interactive worker process per session running the real Debugger over generated libc-free debuggees; reference single-step tracer; canonical-state deduplication"},
+   {"name":"E2 e2e","path":"/verif/harness/src/{e2x,e2w,isession,reftrace,dwarfref,corpus,c01}.rs","serves_properties":["C01","C02","C03","C05","C10","C11","C14","C15"],"kind_free_text":"explicit-state exploration of command histories: one interactive worker process per session running the real Debugger over generated libc-free debuggees; reference single-step tracer; canonical-state deduplication"},
    {"name":"E5 dap","path":"/verif/harness/src/{dapx,dapw,c12}.rs","serves_properties":["C12","C13"],"kind_free_text":"explicit-state exploration of DAP request histories: the real DebugSession::run on a thread inside one worker process per session, in-memory transport, real debuggee; protocol monitor + reference-trace oracle"},
    {"name":"E4 pure","path":"/verif/harness/src/{c07,c14,c17}.rs","serves_properties":["C07","C14","C17"],"kind_free_text":"bounded-exhaustive / explicit-state exploration of in-process components against reference models"},
  ],
